@@ -27,7 +27,7 @@ func init() { RegisterProperty(propC11{}) }
 
 func (propC11) ID() string { return "C11" }
 func (propC11) Modes() []string {
-	return []string{"server-link-faults", "server-garbage", "client-faults"}
+	return []string{"server-link-faults", "server-garbage", "client-faults", "ts-client-faults"}
 }
 
 var rawContentTypes = []string{"application/json", "application/json; charset=utf-8", "application/x-protobuf", "application/octet-stream",
@@ -150,6 +150,48 @@ func (propC11) Draw(rt *rapid.T, w *WorldDesc, mode string) *Plan {
 				op.DelaysMs = []int{10, 20}
 			case "drop":
 				op.Faults = []Fault{{Kind: "drop"}}
+			}
+			p.Ops = append(p.Ops, op)
+		}
+	case "ts-client-faults":
+		// the generated TS client (Node 22, injected fetch) against rogue peers and response faults
+		if w.Spec().NoTS {
+			return p
+		}
+		nOps := rapid.IntRange(1, 3).Draw(rt, "nOps")
+		for i := 0; i < nOps; i++ {
+			md := methods[rapid.IntRange(0, len(methods)-1).Draw(rt, fmt.Sprintf("op%d.rpc", i))]
+			rpc := w.RPC(md.Key)
+			op := &Op{ID: i, RPC: md.Key, Client: "ts", App: AppBehaviour{Kind: "respond"}}
+			req := drawValidReq(rt, w, md, fmt.Sprintf("op%d.req", i))
+			resp := NewFilled(rt, md.NewResp, fmt.Sprintf("op%d.resp", i), nil)
+			scrubNonFinite(req.ProtoReflect(), 0)
+			scrubNonFinite(resp.ProtoReflect(), 0)
+			op.ReqBin, op.RespBin = mustMarshal(req), mustMarshal(resp)
+			op.ReqJSON, op.RespJSON = jsonOf(req), jsonOf(resp)
+			op.Opts = drawHeaderOpts(rt, rpc, fmt.Sprintf("op%d.hdr", i))
+			op.RespChunks = drawChunks(rt, fmt.Sprintf("op%d.respChunks", i))
+			if rapid.IntRange(0, 3).Draw(rt, fmt.Sprintf("op%d.rogue", i)) != 0 {
+				op.Server = "rogue"
+				op.Rogue = drawRogue(rt, resp, fmt.Sprintf("op%d.rogue", i))
+			} else {
+				op.Server = "go"
+			}
+			kind := rapid.SampledFrom([]string{"none", "none", "truncate", "reset", "stall", "cancel", "drop"}).Draw(rt, fmt.Sprintf("op%d.fault", i))
+			switch kind {
+			case "truncate", "reset", "stall":
+				op.Faults = []Fault{{Kind: kind, Dir: "resp", At: drawFaultAt(rt, fmt.Sprintf("op%d.at", i)),
+					InHead: rapid.IntRange(0, 5).Draw(rt, fmt.Sprintf("op%d.inhead", i)) == 0}}
+			case "cancel":
+				op.Faults = []Fault{{Kind: "cancel", AtMs: rapid.IntRange(0, 50).Draw(rt, fmt.Sprintf("op%d.cancelAt", i))}}
+				op.DelaysMs = []int{10, 20}
+			case "drop":
+				op.Faults = []Fault{{Kind: "drop"}}
+			}
+			// a caller-side time limit (AbortSignal.timeout): the fetch fails when it expires
+			op.DeadlineMs = rapid.SampledFrom([]int{0, 200, 5000}).Draw(rt, fmt.Sprintf("op%d.deadline", i))
+			if kind == "stall" || kind == "drop" {
+				op.DeadlineMs = rapid.SampledFrom([]int{200, 5000}).Draw(rt, fmt.Sprintf("op%d.deadline2", i))
 			}
 			p.Ops = append(p.Ops, op)
 		}
@@ -296,6 +338,8 @@ func (propC11) Check(k *Kernel, cov *Coverage) *Violation {
 	switch k.Plan.Mode {
 	case "client-faults":
 		return checkC11Client(k, cov)
+	case "ts-client-faults":
+		return checkC11TSClient(k, cov)
 	}
 	return checkC11Server(k, cov)
 }
@@ -856,4 +900,82 @@ func framedButShort(l *link, method string) bool {
 	}
 	_, err = io.Copy(io.Discard, resp.Body)
 	return err != nil
+}
+
+// checkC11TSClient: for any status, headers and body a peer may return, and for any way the
+// response may fail to arrive, a call through the generated TS client settles (resolves with a
+// value or rejects with an error), never brings the process down, never hangs once its fetch
+// has failed or its time limit has passed, and never reports success for a response that did
+// not arrive completely, was not a 2xx, or whose body is not JSON at all.
+func checkC11TSClient(k *Kernel, cov *Coverage) *Violation {
+	if len(k.TSCrashes) > 0 {
+		return &Violation{Class: "ts-process-crash", Signature: "C11|ts-process-crash|ts-client-faults",
+			Detail: "the Node process running the generated TS client reported an uncaught exception / unhandled rejection: " + strings.Join(k.TSCrashes, "; ")}
+	}
+	for _, c := range k.Calls {
+		if c.Op.Client != "ts" {
+			continue
+		}
+		fk := "none"
+		if len(c.Op.Faults) > 0 {
+			fk = c.Op.Faults[0].Kind
+		}
+		srv := c.Op.Server
+		sig := func(class, extra string) string {
+			s := "C11|" + class + "|ts-client-faults|server=" + srv + "|fault=" + fk
+			if extra != "" {
+				s += "|" + extra
+			}
+			return s
+		}
+		var last *Conn
+		if len(c.Conns) > 0 {
+			last = c.Conns[len(c.Conns)-1]
+		}
+		if !c.Returned {
+			// the injected fetch settles when the response has arrived, the link has failed, the
+			// time limit has expired or the signal was aborted; after that the call must settle
+			if c.Op.DeadlineMs > 0 || c.cancelFired || (last != nil && (last.s2c.dead || last.s2c.eofSent)) {
+				return &Violation{Class: "client-hang", Signature: sig("client-hang", ""),
+					Detail: fmt.Sprintf("op %d %s: the TS client call never settled (deadline=%dms cancelled=%v, fetch issued=%v)", c.Op.ID, c.Op.RPC, c.Op.DeadlineMs, c.cancelFired, last != nil)}
+			}
+			cov.Tuple(k.W.Name, "ts-client", srv, fk, "blocked-without-deadline")
+			continue
+		}
+		d := time.Duration(c.Op.DeadlineMs) * time.Millisecond
+		if d > 0 && c.RetAt-c.StartAt > d+50*time.Millisecond {
+			return &Violation{Class: "client-late", Signature: sig("client-late", ""),
+				Detail: fmt.Sprintf("op %d %s settled after %v, the time limit was %v", c.Op.ID, c.Op.RPC, c.RetAt-c.StartAt, d)}
+		}
+		resolved := c.Err == nil && c.TSError == nil
+		st := 0
+		if resolved {
+			verb := "POST"
+			if r := k.W.RPC(c.Op.RPC); r != nil {
+				verb = r.Verb
+			}
+			if last == nil {
+				return &Violation{Class: "success-without-request", Signature: sig("success-without-request", ""),
+					Detail: fmt.Sprintf("op %d %s resolved with %s without having issued a fetch", c.Op.ID, c.Op.RPC, truncBytes(c.TSValue))}
+			}
+			complete, wireStatus := last.s2c.responseComplete(verb)
+			st = wireStatus
+			if !complete {
+				return &Violation{Class: "success-from-incomplete-response", Signature: sig("success-from-incomplete-response", ""),
+					Detail: fmt.Sprintf("op %d %s: link delivered %d of %d response bytes (%s) yet the TS client resolved with %s", c.Op.ID, c.Op.RPC, last.s2c.delivered, last.s2c.total, connFault(last), truncBytes(c.TSValue))}
+			}
+			if wireStatus < 200 || wireStatus > 299 {
+				return &Violation{Class: "success-from-error-status", Signature: sig("success-from-error-status", fmt.Sprintf("status=%d", wireStatus)),
+					Detail: fmt.Sprintf("op %d %s: peer answered %d yet the TS client resolved with %s", c.Op.ID, c.Op.RPC, wireStatus, truncBytes(c.TSValue))}
+			}
+			if _, _, body, err := parseResponse(last.s2c.sent, verb); err == nil && !json.Valid(body) {
+				return &Violation{Class: "success-from-undecodable-response", Signature: sig("success-from-undecodable-response", ""),
+					Detail: fmt.Sprintf("op %d %s: response body %q is not JSON yet the TS client resolved with %s", c.Op.ID, c.Op.RPC, truncBytes(body), truncBytes(c.TSValue))}
+			}
+		} else if last != nil {
+			st = last.status
+		}
+		cov.Tuple(k.W.Name, "ts-client", srv, fk, fmt.Sprintf("status=%d", st), fmt.Sprintf("resolved=%v", resolved))
+	}
+	return nil
 }
